@@ -152,8 +152,8 @@ func runC03(c *Ctx) {
 	ia := c.interp()
 	reg := c.registry()
 	exe := ia.executeOne
-	errExit := c.spkg("postscript").Var("errExit")
-	errStop := c.spkg("postscript").Var("errStop")
+	errExit := c.signalGlobal("exit")
+	errStop := c.signalGlobal("stop")
 	if errExit == nil || errStop == nil {
 		abort("anchor: errExit/errStop not found")
 	}
@@ -259,39 +259,7 @@ func runC03(c *Ctx) {
 		})
 	}
 	// Execute: exit → invalidexit, stop → nil
-	{
-		f := execute
-		okExit, okStop := false, false
-		eachInstr(f, func(ins ssa.Instruction) {
-			ifi, ok := ins.(*ssa.If)
-			if !ok {
-				return
-			}
-			m, ok := asCmp(cond{ifi.Cond, true, ifi.Block()})
-			if !ok || m.op != token.EQL {
-				return
-			}
-			g := globalLoad(m.y)
-			if g == nil {
-				g = globalLoad(m.x)
-			}
-			tb := ifi.Block().Succs[0]
-			switch g {
-			case errExit:
-				// the true branch builds an invalidexit error
-				for _, ins2 := range tb.Instrs {
-					if v, ok := ins2.(ssa.Value); ok && c.errNameOf(v) == "invalidexit" {
-						okExit = true
-					}
-				}
-			case errStop:
-				// the true branch yields nil: look at the phi fed from tb (or empty block)
-				okStop = c.stopBecomesNil(tb, m)
-			}
-		})
-		c.check(okExit, "CTL-SIGNALS", c.fname(f), "stray exit → invalidexit", f.Pos(), "Execute maps errExit to an invalidexit error", "Execute does not turn an `exit` outside any loop into an invalidexit error")
-		c.check(okStop, "CTL-SIGNALS", c.fname(f), "stop → normal completion", f.Pos(), "Execute maps errStop to nil", "Execute does not turn `stop` into normal completion (nil)")
-	}
+	c.executeRules(true, false, false)
 
 	// ---------- (2) body elements are never run as procedures
 	c.bodyElements(ia)
